@@ -4,6 +4,8 @@ import VProofs.C01
 import VProofs.C05
 import VProofs.C06
 import VProofs.C15
+import VProofs.Lemmas.UtfSync
+import VProofs.Lemmas.SafeOps
 /-!
 # C18 — No input drives the unchecked code out of bounds
 
@@ -44,7 +46,19 @@ operation panics — for all well-formed models, all texts (accepted or rejected
 the public API, in every build configuration of every predictor -/
 theorem C18_history_safe (env : List Predictor) (henv : EnvWF env) (ops : List HOp)
     (hv : ValidRun env Sentence.default ops) : ∃ s, runHistory env Sentence.default ops = .ok s ∧ Inv s := by
-  sorry
+  have hvalid : ∀ (s : Sentence) (op : HOp), op.Valid env s → C18L.OpValid env s op := fun s op h => by
+    cases op <;> exact h
+  have main : ∀ (ops : List HOp) (s : Sentence), C18L.InvH env s → ValidRun env s ops →
+      ∃ s', runHistory env s ops = .ok s' ∧ Inv s' := by
+    intro ops
+    induction ops with
+    | nil => exact fun s h _ => ⟨s, rfl, h.1⟩
+    | cons op ops ih =>
+      intro s h hr
+      obtain ⟨s1, ok, h1, h2⟩ := C18L.step_safe henv h op (hvalid s op hr.1)
+      obtain ⟨s2, h3, h4⟩ := ih s1 h2 (hr.2 s1 ok h1)
+      exact ⟨s2, by simp only [runHistory, h1, h3], h4⟩
+  exact main ops _ (C18L.invH_default env) hv
 
 /-! ## byte-level preconditions -/
 
@@ -55,11 +69,11 @@ def escBytes : Bytes → Bytes
 
 /-- escaping bytes is escaping characters: the three bytes never occur inside a multi-byte sequence -/
 theorem C18_escape_bytes (cs : List Char) : utf8Encode (escTok cs) = escBytes (utf8Encode cs) := by
-  sorry
+  exact UtfL.escape_bytes_of escBytes (fun _ _ => rfl) rfl cs
 
 /-- hence the buffer assembled from raw bytes is valid UTF-8 (it decodes, to the escaped characters) -/
 theorem C18_escape_valid_utf8 (cs : List Char) : utf8Decode? (escBytes (utf8Encode cs)) = some (escTok cs) := by
-  sorry
+  rw [← C18_escape_bytes, BinL.utf8Decode_encode]
 
 /-- UTF-8 self-synchronisation: wherever the bytes of a non-empty pattern end inside the bytes of a text, that offset is a
 character boundary and the pattern occurs there as characters — so every match end handed to `str_to_char_pos` is a
@@ -67,11 +81,12 @@ character boundary, and the byte-wise and the character-wise automaton report th
 theorem C18_match_end_boundary (pat text : List Char) (hp : pat ≠ []) (k : Nat)
     (hk : k ≤ (utf8Encode text).length) (h : utf8Encode pat <:+ (utf8Encode text).take k) :
     ∃ j, j ≤ text.length ∧ k = (utf8Encode (text.take j)).length ∧ pat <:+ text.take j := by
-  sorry
+  exact UtfL.match_end_boundary pat text hp k hk h
 
 /-- and conversely every character-level occurrence is a byte-level occurrence ending at that character's byte offset -/
 theorem C18_char_match_is_byte_match (pat text : List Char) (j : Nat) (hj : j ≤ text.length) (h : pat <:+ text.take j) :
     utf8Encode pat <:+ (utf8Encode text).take (utf8Encode (text.take j)).length := by
-  sorry
+  have _ := hj  -- not needed: `take` saturates
+  exact UtfL.char_match_is_byte_match pat text j h
 
 end V
